@@ -460,7 +460,9 @@ def get_gpytorch_model_w_known_hyperparams(
         initial_values = Y[initial_indices]
 
         model.add_sample(initial_points, initial_values)
-        model.update()
+
+    # Also without initial samples: the GP must forget the data it was trained on.
+    model.update()
 
     return model
 
@@ -829,6 +831,8 @@ def get_gpytorch_modellist_w_known_hyperparams(
             initial_values[np.arange(initial_sample_cnt), initial_pt_obj_indices[:, 1]],
             initial_pt_obj_indices[:, 1],
         )
-        model.update()
+
+    # Also without initial samples: the GPs must forget the data they were trained on.
+    model.update()
 
     return model
